@@ -466,3 +466,7 @@ def elem_sv(elem: str, term) -> SV:
 
 seq_max = z3.Function("seq_max", IntSeq, z3.IntSort())
 seq_min = z3.Function("seq_min", IntSeq, z3.IntSort())
+
+# recursive spec predicate over integer sequences, unfolded by the executor at every append:
+#   strictly_increasing([]) ; strictly_increasing(s ++ [v]) == strictly_increasing(s) and all(x < v for x in s)
+seq_incr = z3.Function("strictly_increasing", IntSeq, z3.BoolSort())
